@@ -3,7 +3,8 @@ import Model.GenGuards
 genum/gen/enumTemplate.gotmpl, gerror/gen/gerror.gotmpl, gsort/gen/gsort.gotmpl
 (text/template/parse) and from genum/definitions.go, gerror/error.go, gerror/factory.go, gerror/gerror.go,
 the three gen/generate.go and GOROOT/src/sort/sort.go (go/ast). Do not edit.
-Entry = ⟨kind, pointer receiver, receiver (alias for imports), name (import path), guard⟩. -/
+Entry = ⟨kind, pointer receiver, receiver (alias for imports), name (import path), guard⟩;
+Ref = ⟨kind, referenced declaration, enclosing declaration, guard⟩. -/
 namespace Generated.Guards
 open GenGuards
 
@@ -58,6 +59,30 @@ def genumUses : List Use := [
   ⟨"strconv", [.range ".Types", .opt "GenYAML" true, .data "(len ((index $.Traits $i).GetParsableUnderlyingFloat32ForYAML))"]⟩,
   ⟨"fmt", [.range ".Types", .opt "GenYAML" true]⟩
 ]
+def genumRefs : List Ref := [
+  ⟨.func, "Parse«$enumTypeName»", "ParseString", [.range ".Types"]⟩,
+  ⟨.func, "Parse«$enumTypeName»", "ParseGeneric", [.range ".Types"]⟩,
+  ⟨.method, "String", "MarshalJSON", [.range ".Types", .opt "GenJSON" true]⟩,
+  ⟨.func, "Parse«$enumTypeName»", "UnmarshalJSON", [.range ".Types", .opt "GenJSON" true]⟩,
+  ⟨.func, "Parse«$enumTypeName»", "UnmarshalJSON", [.range ".Types", .opt "GenJSON" true, .range "(index $.Traits $i).GetParsableUnderlyingStringForJSON"]⟩,
+  ⟨.func, "Parse«$enumTypeName»", "UnmarshalJSON", [.range ".Types", .opt "GenJSON" true, .data "(len ((index $.Traits $i).GetParsableUnderlyingUint64ForJSON))", .range "(index $.Traits $i).GetParsableUnderlyingUint64ForJSON"]⟩,
+  ⟨.func, "Parse«$enumTypeName»", "UnmarshalJSON", [.range ".Types", .opt "GenJSON" true, .data "(len ((index $.Traits $i).GetParsableUnderlyingInt64ForJSON))", .range "(index $.Traits $i).GetParsableUnderlyingInt64ForJSON"]⟩,
+  ⟨.func, "Parse«$enumTypeName»", "UnmarshalJSON", [.range ".Types", .opt "GenJSON" true, .data "(len ((index $.Traits $i).GetParsableUnderlyingFloat64ForJSON))", .range "(index $.Traits $i).GetParsableUnderlyingFloat64ForJSON"]⟩,
+  ⟨.func, "Parse«$enumTypeName»", "UnmarshalJSON", [.range ".Types", .opt "GenJSON" true, .data "(len ((index $.Traits $i).GetParsableUnderlyingFloat32ForJSON))", .range "(index $.Traits $i).GetParsableUnderlyingFloat32ForJSON"]⟩,
+  ⟨.func, "Parse«$enumTypeName»", "UnmarshalJSON", [.range ".Types", .opt "GenJSON" true, .data "(len ((index $.Traits $i).GetParsableJSONUnmarshalable))", .range "(index $.Traits $i).GetParsableJSONUnmarshalable"]⟩,
+  ⟨.method, "String", "MarshalText", [.range ".Types", .opt "GenText" true]⟩,
+  ⟨.func, "Parse«$enumTypeName»", "UnmarshalText", [.range ".Types", .opt "GenText" true]⟩,
+  ⟨.func, "Parse«$enumTypeName»", "UnmarshalText", [.range ".Types", .opt "GenText" true, .range "(index $.Traits $i).GetParsableUnderlyingStringForText"]⟩,
+  ⟨.func, "Parse«$enumTypeName»", "UnmarshalText", [.range ".Types", .opt "GenText" true, .data "(len ((index $.Traits $i).GetParsableTextUnmarshalable))", .range "(index $.Traits $i).GetParsableTextUnmarshalable"]⟩,
+  ⟨.method, "String", "MarshalYAML", [.range ".Types", .opt "GenYAML" true]⟩,
+  ⟨.func, "Parse«$enumTypeName»", "UnmarshalYAML", [.range ".Types", .opt "GenYAML" true]⟩,
+  ⟨.func, "Parse«$enumTypeName»", "UnmarshalYAML", [.range ".Types", .opt "GenYAML" true, .range "(index $.Traits $i).GetParsableUnderlyingStringForYAML"]⟩,
+  ⟨.func, "Parse«$enumTypeName»", "UnmarshalYAML", [.range ".Types", .opt "GenYAML" true, .data "(len ((index $.Traits $i).GetParsableUnderlyingUint64ForYAML))", .range "(index $.Traits $i).GetParsableUnderlyingUint64ForYAML"]⟩,
+  ⟨.func, "Parse«$enumTypeName»", "UnmarshalYAML", [.range ".Types", .opt "GenYAML" true, .data "(len ((index $.Traits $i).GetParsableUnderlyingInt64ForYAML))", .range "(index $.Traits $i).GetParsableUnderlyingInt64ForYAML"]⟩,
+  ⟨.func, "Parse«$enumTypeName»", "UnmarshalYAML", [.range ".Types", .opt "GenYAML" true, .data "(len ((index $.Traits $i).GetParsableUnderlyingFloat64ForYAML))", .range "(index $.Traits $i).GetParsableUnderlyingFloat64ForYAML"]⟩,
+  ⟨.func, "Parse«$enumTypeName»", "UnmarshalYAML", [.range ".Types", .opt "GenYAML" true, .data "(len ((index $.Traits $i).GetParsableUnderlyingFloat32ForYAML))", .range "(index $.Traits $i).GetParsableUnderlyingFloat32ForYAML"]⟩,
+  ⟨.func, "Parse«$enumTypeName»", "UnmarshalYAML", [.range ".Types", .opt "GenYAML" true, .data "(len ((index $.Traits $i).GetParsableYAMLUnmarshalable))", .range "(index $.Traits $i).GetParsableYAMLUnmarshalable"]⟩
+]
 def gerrorEntries : List Entry := [
   ⟨.method, true, "«$desc.TypeName»", "Error", [.range ".ErrorDescs"]⟩,
   ⟨.method, true, "«$desc.TypeName»", "Base", [.range ".ErrorDescs"]⟩,
@@ -88,6 +113,27 @@ def gerrorUses : List Use := [
   ⟨"fmt", [.range ".ErrorDescs"]⟩,
   ⟨"fmt", [.range ".ErrorDescs", .opt "SkipConvertGen" false]⟩
 ]
+def gerrorRefs : List Ref := [
+  ⟨.method, "toPrimaryType", "Base", [.range ".ErrorDescs"]⟩,
+  ⟨.method, "toPrimaryType", "SourceOnly", [.range ".ErrorDescs"]⟩,
+  ⟨.method, "toPrimaryType", "Stack", [.range ".ErrorDescs"]⟩,
+  ⟨.method, "toPrimaryType", "Src", [.range ".ErrorDescs"]⟩,
+  ⟨.method, "toPrimaryType", "DTag", [.range ".ErrorDescs"]⟩,
+  ⟨.method, "toPrimaryType", "Msg", [.range ".ErrorDescs"]⟩,
+  ⟨.method, "toPrimaryType", "SrcDTagMsg", [.range ".ErrorDescs"]⟩,
+  ⟨.method, "toPrimaryType", "SrcDTag", [.range ".ErrorDescs"]⟩,
+  ⟨.method, "toPrimaryType", "SrcMsg", [.range ".ErrorDescs"]⟩,
+  ⟨.method, "toPrimaryType", "DTagMsg", [.range ".ErrorDescs"]⟩,
+  ⟨.method, "toPrimaryType", "SrcS", [.range ".ErrorDescs"]⟩,
+  ⟨.method, "toPrimaryType", "DTagS", [.range ".ErrorDescs"]⟩,
+  ⟨.method, "toPrimaryType", "MsgS", [.range ".ErrorDescs"]⟩,
+  ⟨.method, "toPrimaryType", "SrcDTagMsgS", [.range ".ErrorDescs"]⟩,
+  ⟨.method, "toPrimaryType", "SrcDTagS", [.range ".ErrorDescs"]⟩,
+  ⟨.method, "toPrimaryType", "SrcMsgS", [.range ".ErrorDescs"]⟩,
+  ⟨.method, "toPrimaryType", "DTagMsgS", [.range ".ErrorDescs"]⟩,
+  ⟨.method, "toPrimaryType", "Convert", [.range ".ErrorDescs", .opt "SkipConvertGen" false]⟩,
+  ⟨.method, "toPrimaryType", "ConvertS", [.range ".ErrorDescs", .opt "SkipConvertGen" false]⟩
+]
 def gsortEntries : List Entry := [
   ⟨.typ, false, "", "«$desc.SortTypeName»", [.range ".SorterDescs"]⟩,
   ⟨.method, false, "«$desc.SortTypeName»", "Len", [.range ".SorterDescs"]⟩,
@@ -96,6 +142,8 @@ def gsortEntries : List Entry := [
   ⟨.imp, false, "«$import.Alias»", "«$import.PkgPath»", [.data "$.Imports.HasActiveImports", .range "$.Imports.GetActive"]⟩
 ]
 def gsortUses : List Use := [
+]
+def gsortRefs : List Ref := [
 ]
 
 def ifaceEnum : List String := ["IsValid", "StringValues", "String", "IsEnum", "ParseGeneric"]
